@@ -171,7 +171,9 @@ fn apply(rng: &mut Rng, v: &Vocab, kind: &str, its: &mut Vec<(String, Lx)>, tail
                     "case-function" => v.functions.contains(&lw) && next_is_paren && !prev_is_dot,
                     "case-aggregate" => v.aggregates.contains(&lw) && next_is_paren && !prev_is_dot,
                     "case-type" => TYPES.contains(&lw.as_str()) && !next_is_paren && !prev_is_dot
-                        && i > 0 && (its[i - 1].1.text == "::" || its[i - 1].1.k == K::Word),
+                        // a type name stands after `::` (cast) or, in a CREATE TABLE text only, after the column name — in a
+                        // SELECT a word after another word can be an alias or column that merely looks like a type (`x AS text`)
+                        && i > 0 && (its[i - 1].1.text == "::" || (its[i - 1].1.k == K::Word && its.first().map(|f| f.1.text.eq_ignore_ascii_case("create")).unwrap_or(false))),
                     _ => MODES.contains(&lw.as_str()) && i > 0 && its[i - 1].1.text == "=" && i + 1 < n && its[i + 1].1.k == K::Str,
                 };
                 if applies {
